@@ -342,6 +342,8 @@ CrashClauses(e) ==
     \* the interrupted operation is absent or present as a whole: manifests, tags and referrers lists of all repositories
     \* are those of the state before it, or those of the state after it
     <<"crash.atomic", (\E st \in {"pre", "cur"} : \A r \in DOMAIN e.obs : ViewMatches(e.obs[r], st, r)) \/ DevArtifactTwoSaves(e)>>,
+    \* the recovered repository is usable: a blob pushed to it after the crash is still served after another restart
+    <<"crash.usable", ("cont" \in DOMAIN e /\ e.cont.post \in 200..299) => (e.cont.get = 200 /\ e.cont.ok)>>,
     \* (reported separately so that it can be listed as a known finding: it fails exactly when only the deviation explains the image)
     <<"crash.atomic.kf-artifact-two-saves", (\E st \in {"pre", "cur"} : \A r \in DOMAIN e.obs : ViewMatches(e.obs[r], st, r)) \/ ~DevArtifactTwoSaves(e)>> }
 TraceCrash ==
